@@ -12,6 +12,7 @@ import (
 	"verif/sim/core"
 	_ "verif/sim/cachesim"
 	_ "verif/sim/chainsim"
+	_ "verif/sim/codecsim"
 	_ "verif/sim/fcsim"
 	_ "verif/sim/poolsim"
 	_ "verif/sim/schedsim"
